@@ -103,6 +103,28 @@ pub fn judge(out: &mut Out, toks: &[Tok], src: &str, want: Want, prop_rule_prefi
         Class::Ill(_) => out.count("class ILL"),
         Class::Unclaimed(_) => out.count("class UNCLAIMED (skipped)"),
     }
+    // an ill-formed source is also rejected at the string level, whatever was evaluated just before — in particular a
+    // well-formed source that differs from it only in blanks (`12` before `1 2`, `a == b` before `a = = b`)
+    if let (Class::Ill(reason), true) = (&class, want != Want::WellFormed) {
+        if toks.len() <= 4 || out.evaluations % 4 == 0 {
+            let stripped: String = src.chars().filter(|c| !c.is_whitespace()).collect();
+            let doubled = src.replace(' ', "  ");
+            for (k, sib) in [stripped, doubled].iter().enumerate() {
+                let first = observe::guard(|| evalexpr::eval(sib));
+                let got = api::lift(observe::guard(|| if k == 0 { evalexpr::eval(src) } else { evalexpr::eval_with_context_mut(src, &mut Ctx::new()) }));
+                out.evals(2);
+                out.count("ILL sources evaluated at string level right after a blank-variant sibling");
+                if let Got::Val(v) = &got {
+                    out.violation(
+                        "ill-formed-evaluates",
+                        format!("eval({:?}) and directly afterwards eval({:?})", sib, src),
+                        format!("the second never evaluates successfully (ill-formed: {})", reason),
+                        format!("first {} ; second Ok({})", match &first { Ok(r) => format!("{:?}", r), Err(_) => "panicked".into() }, v.show()),
+                    );
+                }
+            }
+        }
+    }
     let mut tree_out = None;
     match (&class, &built) {
         (_, Built::Panic(p)) => {
